@@ -45,10 +45,13 @@ type Store struct {
 	NApplied int // write operations that took effect (commits)
 	ClockFn  func() uint64
 	TSOFault func() bool // the timestamp oracle fails when this returns true
-	NIters   int
-	Clock    uint64
-	ErrOther error              // the definite error injected by FaultErr
-	Yield    func(point string) // scheduling point hook (set by threaded harnesses)
+	// IterFault is asked before every iterator step (with the step's ordinal): true = the step fails
+	IterFault func(n int) bool
+	NNext     int
+	NIters    int
+	Clock     uint64
+	ErrOther  error              // the definite error injected by FaultErr
+	Yield     func(point string) // scheduling point hook (set by threaded harnesses)
 	// Snapshots: GetTimestampOracle names the current state and Iter(timestamp) reads that state
 	// (an engine with snapshot reads, like TiKV); without it an iterator sees the state at the
 	// moment it is opened (memkv, Badger)
@@ -201,11 +204,19 @@ func (s *Store) Get(ctx context.Context, key []byte) ([]byte, error) {
 type iter struct {
 	ents []Ent
 	pos  int
+	s    *Store
 }
 
 func (it *iter) Key() []byte { return it.ents[it.pos].Key }
 func (it *iter) Val() []byte { return it.ents[it.pos].Val }
 func (it *iter) Next(ctx context.Context) error {
+	if it.s != nil && it.s.IterFault != nil {
+		n := it.s.NNext
+		it.s.NNext++
+		if it.s.IterFault(n) {
+			return ErrInjected // a transient engine fault in the middle of a scan
+		}
+	}
 	it.pos++
 	if it.pos >= len(it.ents) {
 		it.pos = len(it.ents)
@@ -221,7 +232,7 @@ func (s *Store) Iter(ctx context.Context, start []byte, end []byte, timestamp ui
 	s.yield("iter")
 	defer s.yield("iter-done")
 	s.NIters++
-	it := &iter{pos: -1}
+	it := &iter{pos: -1, s: s}
 	ents := s.at(timestamp)
 	if bytes.Compare(start, end) <= 0 {
 		for i := range ents {
